@@ -52,3 +52,110 @@ def fold(node, env=None):
         if fn in ("array", "asarray") and node.args:
             return fold(node.args[0], env)
     raise NotConstant(ast.unparse(node)[:60])
+
+
+# ---- finite string sets for keys built in loops -----------------------------------------------------------
+
+def small_eval(node, env):
+    """Evaluate a *literal computation* (lists, dict literals, ranges, slices, f-strings, + on ints) over `env`.
+    Only the whitelisted node kinds are interpreted; anything else raises NotConstant."""
+    if isinstance(node, ast.Constant):
+        return node.value
+    if isinstance(node, ast.Name):
+        if node.id in env:
+            return env[node.id]
+        raise NotConstant(node.id)
+    if isinstance(node, (ast.List, ast.Tuple)):
+        return [small_eval(e, env) for e in node.elts]
+    if isinstance(node, ast.Dict):
+        return {small_eval(k, env): small_eval(v, env) if _is_lit(v, env) else None for k, v in zip(node.keys, node.values)}
+    if isinstance(node, ast.BinOp) and isinstance(node.op, (ast.Add, ast.Sub)):
+        l, r = small_eval(node.left, env), small_eval(node.right, env)
+        return l + r if isinstance(node.op, ast.Add) else l - r
+    if isinstance(node, ast.Subscript):
+        v = small_eval(node.value, env)
+        if isinstance(node.slice, ast.Slice):
+            lo = small_eval(node.slice.lower, env) if node.slice.lower is not None else None
+            hi = small_eval(node.slice.upper, env) if node.slice.upper is not None else None
+            return v[lo:hi]
+        return v[small_eval(node.slice, env)]
+    if isinstance(node, ast.Call):
+        fn = ast.unparse(node.func)
+        if fn == "range":
+            return list(range(*[small_eval(a, env) for a in node.args]))
+        if fn == "enumerate":
+            return [[i, x] for i, x in enumerate(small_eval(node.args[0], env))]
+        if isinstance(node.func, ast.Attribute) and node.func.attr == "items":
+            d = small_eval(node.func.value, env)
+            return [[k, v] for k, v in d.items()]
+        if isinstance(node.func, ast.Attribute) and node.func.attr == "keys":
+            return list(small_eval(node.func.value, env).keys())
+        if fn == "str":
+            return str(small_eval(node.args[0], env))
+    if isinstance(node, ast.JoinedStr):
+        out = ""
+        for p in node.values:
+            if isinstance(p, ast.Constant):
+                out += str(p.value)
+            else:
+                v = small_eval(p.value, env)
+                spec = ""
+                if p.format_spec is not None:
+                    spec = "".join(str(x.value) for x in p.format_spec.values if isinstance(x, ast.Constant))
+                out += format(v, spec)
+        return out
+    raise NotConstant(ast.unparse(node)[:60])
+
+
+def _is_lit(node, env):
+    try:
+        small_eval(node, env)
+        return True
+    except (NotConstant, Exception):
+        return False
+
+
+def bind(target, value, env):
+    if isinstance(target, ast.Name):
+        env[target.id] = value
+    elif isinstance(target, (ast.Tuple, ast.List)):
+        for t, v in zip(target.elts, value):
+            bind(t, v, env)
+
+
+def relevant_loops(expr, loops):
+    """Drop enclosing loops whose variables the expression (transitively) does not use."""
+    needed = {n.id for n in ast.walk(expr) if isinstance(n, ast.Name)}
+    keep = []
+    for lp in reversed(loops):
+        tn = {n.id for n in ast.walk(lp.target) if isinstance(n, ast.Name)}
+        if tn & needed:
+            keep.append(lp)
+            needed -= tn          # bound here: outer loops with the same names are shadowed
+            needed |= {n.id for n in ast.walk(lp.iter) if isinstance(n, ast.Name)}
+    return list(reversed(keep))
+
+
+def enum_in_loops(expr, loops, env, _filtered=False):
+    """All values of `expr` when the enclosing `loops` (outermost first; ast.For or comprehension) run over literal domains."""
+    if not _filtered:
+        loops = relevant_loops(expr, loops)
+    if not loops:
+        try:
+            return [small_eval(expr, env)]
+        except NotConstant:
+            return None
+    lp = loops[0]
+    try:
+        dom = small_eval(lp.iter, env)
+    except NotConstant:
+        return None
+    out = []
+    for v in dom:
+        e2 = dict(env)
+        bind(lp.target, v, e2)
+        sub = enum_in_loops(expr, loops[1:], e2, True)
+        if sub is None:
+            return None
+        out.extend(sub)
+    return out
